@@ -135,8 +135,16 @@ def handle (j : Json) : Except String Json := do
     let env : Env := { rw := rwOf rwl, readable := fun c => !unreadable.contains c,
                        writable := fun p => !unwritable.contains p, realSafe := realSafe }
     let parse := parseOptions keep tty opts
-    let r := Pfb.C09.mainNamed env keep tty opts name fs args answers
-    let refused := !(args.all fun p => safeName (name p))
+    -- variant bits (absent = false): `isoUnsafe` = tree with fixes/C09-1a.diff, `failFast` = this invocation
+    -- re-raises the first per-file error (--verbose / PYFLYBY_LOG_LEVEL=DEBUG before fixes/C09-2.diff);
+    -- with both off this is `mainNamed` (theorem `mainV_plain`)
+    let optBool : String → Bool := fun k => match j.getObjVal? k with
+      | .ok (.bool b) => b
+      | _ => false
+    let isoUnsafe := optBool "isoUnsafe"
+    let failFast := optBool "failFast"
+    let (r, crash) := Pfb.C09.mainV env keep tty isoUnsafe failFast opts name fs args answers
+    let refused := !isoUnsafe && !(args.all fun p => safeName (name p))
     let parseJ : Json := match parse with
       | .ok acts => Json.mkObj [("ok", Json.arr (acts.map actionJ).toArray)]
       | .error .optionValueError => Json.mkObj [("err", "optionValueError")]
@@ -149,6 +157,7 @@ def handle (j : Json) : Except String Json := do
       ("fs", Json.arr (paths.map fun p => Json.arr #[natJ p, nodeJ (r.fs p)]).toArray),
       ("ev", Json.arr (r.ev.map evJ).toArray),
       ("refused", Json.bool refused),
+      ("crash", match crash with | none => Json.null | some m => Json.arr #[natJ m.path, errJ m.kind]),
       ("ansLeft", natJ r.ansLeft.length)])
   | "safeName" =>
     let a ← jstr j "name"
